@@ -2,6 +2,7 @@ package valtab
 
 import (
 	"fmt"
+	"os"
 	"go/types"
 	"sort"
 	"strings"
@@ -578,9 +579,52 @@ func (t *tab) renderTotal() {
 					}
 					return false, false
 				}
+				var cuts []string
+				in.Hooks.Slice = func(in *absint.Interp, x absint.Val, lo, hi, max absint.Val, site ssa.Instruction) (absint.Val, bool) {
+					if _, conc := x.(*absint.Slice); conc || mn != "Abbrev" {
+						return nil, false
+					}
+					h, isC := absint.ConstInt(hi)
+					if hi == nil {
+						return nil, false
+					}
+					// the cut must lie inside the text: a comparison on this path bounds
+					// the length of the very value that is cut
+					okCut := false
+					if isC {
+						xk := absint.Key(x)
+						for _, c := range in.CondV {
+							ck := absint.Key(c.V)
+							var n int64
+							switch {
+							case scan(ck, "<(%d,len("+xk+"))", &n) && c.B:
+								okCut = okCut || n+1 >= h
+							case scan(ck, "<(len("+xk+"),%d)", &n) && !c.B:
+								okCut = okCut || n >= h
+							case scan(ck, ">(len("+xk+"),%d)", &n) && c.B:
+								okCut = okCut || n+1 >= h
+							case scan(ck, ">=(len("+xk+"),%d)", &n) && c.B:
+								okCut = okCut || n >= h
+							case scan(ck, "<=(len("+xk+"),%d)", &n) && !c.B:
+								okCut = okCut || n+1 >= h
+							}
+						}
+					}
+					if !okCut && os.Getenv("CALCSA_DUMP_VALTAB") != "" {
+						for _, c := range in.CondV {
+							fmt.Printf("  abbrev cond: %s = %v\n", absint.Key(c.V), c.B)
+						}
+					}
+					if !okCut {
+						cuts = append(cuts, fmt.Sprintf("%s[:%s] at %s", absint.Key(x), absint.Key(hi), t.p.Pos(site.Pos())))
+					}
+					return nil, false
+				}
 				_, end := in.Run(fn, []absint.Val{t.mkVal("a", k)})
 				if end != nil {
 					bad = end.Error()
+				} else if len(cuts) > 0 {
+					bad = "the shortened form cuts " + strings.Join(cuts, ", ") + " without a test on this path that the value cut is at least that long (a slice expression beyond the length fails, or shows spare capacity that is not part of the value)"
 				}
 				if !o.Next() {
 					break
@@ -593,4 +637,14 @@ func (t *tab) renderTotal() {
 			}
 		}
 	}
+}
+
+// scan matches key against a pattern with one %d and nothing else variable.
+func scan(key, pattern string, n *int64) bool {
+	i := strings.Index(pattern, "%d")
+	if i < 0 || !strings.HasPrefix(key, pattern[:i]) || !strings.HasSuffix(key, pattern[i+2:]) || len(key) < len(pattern)-2 {
+		return false
+	}
+	_, err := fmt.Sscanf(key[i:len(key)-len(pattern[i+2:])], "%d", n)
+	return err == nil && fmt.Sprint(*n) == key[i:len(key)-len(pattern[i+2:])]
 }
